@@ -619,12 +619,12 @@ def parts(tier):
         Part("unknown", run, strategy=unknown_cases(), n={"quick": 1500, "thorough": 30000},
              shards={"quick": 2, "thorough": 4}),
         Part("respell", run_respell, strategy=respell_cases(sorted(set(_NAME_TOKENS) | _TRAILING_HEX | _TRAILING_B64 | {"TXT", "SPF", "HINFO", "X25", "ISDN", "CAA", "URI", "NAPTR", "AVC", "WALLET", "NINFO", "RESINFO", "GPOS"})),
-             n={"quick": 6000, "thorough": 200000}, require={"quoted": 500, "name": 500, "rechunked": 300, "respelled": 2000},
+             n={"quick": 6000, "thorough": 200000}, require={"quoted": 300, "name": 500, "rechunked": 300, "respelled": 1500},
              shards={"quick": 8, "thorough": 16}),
         Part("textmut", run_textmut, strategy=textmut_cases(TEXT_TYPES), n={"quick": 300 * n_types, "thorough": 4000 * n_types},
              require={"mut-accepted": 2000, "mut-rejected": 2000}, shards={"quick": 16, "thorough": 16}),
         Part("fieldlimit", run_fieldlimit, cases=fieldlimit_cases, shards={"quick": 4, "thorough": 4},
              require={"fl-accepted": 10, "fl-refused": 10}),
         Part("namelimit", run_namelimit, strategy=namelimit_cases(), n={"quick": 3000, "thorough": 60000},
-             require={"full:255": 300, "full:256": 300, "accepted": 500, "too-long-refused": 500}, shards={"quick": 4, "thorough": 8}),
+             require={"full:255": 300, "full:256": 100, "accepted": 500, "too-long-refused": 250}, shards={"quick": 4, "thorough": 8}),
     ]
